@@ -308,6 +308,34 @@ pub fn check_block_result(r: &BlockTranslationResult, seed: u64, checked: &mut C
             }
         }
     }
+    // the lifted block as a whole (the per-instruction graphs chained the way
+    // BlockTranslationResult::blockify chains them): still exactly one enabled out-edge
+    // per block. Catches an instruction graph whose exit block keeps an out-edge of its own.
+    if out.is_empty() && r.instructions().len() >= 2 {
+        if let Ok(cfg) = r.blockify() {
+            let mut succ: BTreeMap<usize, Vec<&il::Edge>> = BTreeMap::new();
+            for e in cfg.edges() {
+                succ.entry(e.head()).or_default().push(e);
+            }
+            for (head, edges) in &succ {
+                let guards: Vec<Option<&il::Expression>> = edges.iter().map(|e| e.condition()).collect();
+                let address = cfg
+                    .block(*head)
+                    .ok()
+                    .and_then(|b| b.instructions().iter().rev().find_map(|i| i.address()));
+                check_guard_set(
+                    &guards,
+                    seed ^ 0xb10c ^ (*head as u64),
+                    &format!("out-edges of block {} of the blockified result", head),
+                    "edges-not-exclusive",
+                    "edges-not-exhaustive",
+                    address,
+                    checked,
+                    &mut out,
+                );
+            }
+        }
+    }
     if !r.successors().is_empty() {
         // successors naming the same address are one alternative: merge them
         let guards: Vec<Option<&il::Expression>> = r.successors().iter().map(|s| s.1.as_ref()).collect();
